@@ -34,7 +34,7 @@ fuzz_target!(|data: &[u8]| {
         let scale: i64 = if u.ratio(1, 8)? { u.int_in_range(-1100..=400)? } else { u.int_in_range(-30..=70)? };
         let kind = [Kind::Disp, Kind::Lower, Kind::Upper][u.int_in_range(0..=2usize)?];
         let prec = if u.ratio(1, 5)? { None } else if u.ratio(1, 10)? { Some(u.int_in_range(980..=1020u32)?) } else { Some(u.int_in_range(0..=70u32)?) };
-        Ok(FmtCase { d: D::new(s, scale), kind, prec, fill_align: u.int_in_range(0..=12)?, plus: u.arbitrary()?, zero: u.arbitrary()?, width: u.int_in_range(0..=60)? })
+        Ok(FmtCase { d: D::new(s, scale), kind, prec, fill_align: u.int_in_range(0..=18)?, plus: u.arbitrary()?, zero: u.arbitrary()?, width: u.int_in_range(0..=60)? })
     };
     if let Ok(c) = build(&mut u) {
         fuzz_check("C16", "fmt", &c, check_fmt);
